@@ -87,6 +87,10 @@ def _f32():
         st.floats(allow_nan=False, allow_infinity=False, width=32),
         st.floats(-1000.0, 1000.0, allow_nan=False, width=32),
         st.sampled_from([0.0, 1.0, -1.0, 0.5, 0.1015625, 16384.0, -2.5]),
+        # magnitudes whose text form has many digits or (with a different formatter) an exponent: every decade up to the
+        # float32 maximum and down to the smallest normal, with a mantissa of 1, 1.5 or 9.999...
+        st.builds(lambda m, e, sign: gens.to_f32(sign * min(m * 10.0 ** e, 3.4e38)),
+                  st.sampled_from([1.0, 1.5, 9.9999]), st.integers(-38, 38), st.sampled_from([1, -1])),
     )
 
 
